@@ -210,7 +210,7 @@ def run(ctx):
         jobs = [j for k, j in enumerate(jobs) if j['exact'] or (k + ctx.seed) % 4 == 0]
     for case in ctx.mine(jobs):
         body(case, ctx.rec)
-    for case in ctx.mine([dict(c, exact=False) for c in pairs.far_thin_family()]):
+    for case in ctx.mine([dict(c, exact=False) for c in pairs.far_thin_family() + pairs.corner_piece_family()]):
         body(case, ctx.rec)
     n = ctx.share(1600 if ctx.quick else 16000)
     explore(ctx, cases(), body, n)
